@@ -2,7 +2,8 @@
    enumeration are C19's (about the definitions translated from spaces.py); closure is proved for ALL parameters,
    for EVERY event (not only positive-probability ones). *)
 From Coq Require Import ZArith List Bool.
-From MdpaxV Require Import Model.ListUtil Model.Spaces Model.Problems Proofs.C19P Proofs.C14P.
+From MdpaxV Require Import Model.ListUtil Model.Spaces Model.Problems Model.ProblemOps Proofs.C19P Proofs.C14P Proofs.GenDeMoorP.
+From MdpaxGen Require Import GenDeMoor.
 Import ListNotations.
 Open Scope Z_scope.
 
@@ -11,6 +12,19 @@ Theorem demoor_closed : forall (L m : nat) (fifo : bool) (Q : Z), (1 <= L)%nat -
   Forall (fun x => 0 <= x <= Q) (dm_next L m fifo state q d) /\ length (dm_next L m fifo state q d) = (L - 1 + m)%nat.
 Proof. exact demoor_closed_l. Qed.
 Print Assumptions demoor_closed.
+
+(* ... and the same about the transition GENERATED from the De Moor source (gen/GenDeMoor.v): every successor of a listed
+   state under every action and EVERY demand is a listed state *)
+Theorem generated_demoor_transition_closed : forall (L m : nat) (fifo : bool) (Q : Z) c1 c2 c3 c4, (1 <= L)%nat -> (1 <= m)%nat -> 0 <= Q ->
+  forall state q d, length state = (L - 1 + m)%nat -> Forall (fun x => 0 <= x <= Q) state -> 0 <= q <= Q -> 0 <= d ->
+  let nxt := fst (gen_transition L m fifo c1 c2 c3 c4 state [q] [d]) in
+  Forall (fun x => 0 <= x <= Q) nxt /\ length nxt = (L - 1 + m)%nat.
+Proof.
+  intros L m fifo Q c1 c2 c3 c4 HL Hm HQ state q d Hlen Hs Hq Hd nxt. unfold nxt.
+  rewrite (proj1 (gen_transition_eq L m fifo c1 c2 c3 c4 state q d Hlen)).
+  exact (demoor_closed_l L m fifo Q HL Hm HQ state q d Hlen Hs Hq Hd).
+Qed.
+Print Assumptions generated_demoor_transition_closed.
 
 Theorem hendrix_closed : forall m Qa Qb state qa qb ia ib, (1 <= m)%nat -> 0 <= Qa -> 0 <= Qb ->
   length state = (m + m)%nat -> Forall (fun x => 0 <= x <= Qa) (firstn m state) -> Forall (fun x => 0 <= x <= Qb) (skipn m state) ->
